@@ -9,6 +9,7 @@
 -/
 import Jence.Lemmas.Top
 import Jence.Lemmas.NoOverflow
+import Jence.Lemmas.RepExt
 namespace Jence.Props.C18
 open Jence
 
@@ -49,5 +50,84 @@ theorem cleared_history_empty (r : RepTable) : r.clear.pre = [] ∧ r.clear.inde
 theorem second_search_same_history_of_room (R : Rules) (cfg : Cfg) (g : Game) (d : Int) (tt : TT) (rep : RepTable) (hroom : HistoryRoom rep) :
     (search R cfg g d tt rep).2.rep.pre = rep.pre ∧ (search R cfg g d tt rep).2.rep.index = rep.index :=
   second_search_same_history R cfg g d tt rep (search_no_overflow R cfg g d tt rep hroom).1
+
+/-- **T18.1c** `search` depends on the history array only through the *recorded* history: two arrays with the same
+    index, size and overflow flag and the same keys below the index - whatever stale keys lie above it, left there by
+    earlier searches or earlier games - give the same result (best move, score, node count, depth, table hits), the same
+    printed lines and the same table, and final environments that again differ only above the index. For every rules
+    instance, depth, table content, poll schedule and input schedule, with the hook trace off (the unguarded engine; the
+    trace is the only reader of a slot above the index). -/
+theorem search_reads_recorded_history_only (R : Rules) (cfg : Cfg) (h0 : cfg.trace = 0) (g : Game) (depth : Int) (tt : TT)
+    (rep1 rep2 : RepTable) (h : RepEq rep1 rep2) :
+    (search R cfg g depth tt rep2).1 = (search R cfg g depth tt rep1).1 ∧
+    (search R cfg g depth tt rep2).2.out = (search R cfg g depth tt rep1).2.out ∧
+    (search R cfg g depth tt rep2).2.tt = (search R cfg g depth tt rep1).2.tt ∧
+    RepEq (search R cfg g depth tt rep1).2.rep (search R cfg g depth tt rep2).2.rep := by
+  obtain ⟨h1, h2⟩ := search_ext R cfg h0 g depth tt rep1 rep2 h
+  exact ⟨h1, h2.out, h2.tt, h2.repEq⟩
+
+/-- the history array a search hands back is equivalent to the one it was given (with room, `Lemmas/NoOverflow`) -/
+theorem history_after_search_equivalent (R : Rules) (cfg : Cfg) (g : Game) (d : Int) (tt : TT) (rep : RepTable) (hroom : HistoryRoom rep) :
+    RepEq rep (search R cfg g d tt rep).2.rep := by
+  have ho := (search_no_overflow R cfg g d tt rep hroom).1
+  obtain ⟨_, he⟩ := search_eq R cfg g d tt rep
+  have hf := idLoop_frame R cfg g (if d == -1 then Gen.MAX_PLY else (d % 256).toNat) 1 (-Gen.INFINITY) Gen.INFINITY 0 (Env.fresh tt rep)
+  have hev := ev_frame cfg (searchLoopEnd R cfg g d tt rep).2.2
+    [10, (searchLoopEnd R cfg g d tt rep).2.2.ply.toUInt64, (searchLoopEnd R cfg g d tt rep).2.2.rep.index.toUInt64,
+      b2w (searchLoopEnd R cfg g d tt rep).2.2.stopping]
+    (fun _ => s!"end {(searchLoopEnd R cfg g d tt rep).2.2.ply} {(searchLoopEnd R cfg g d tt rep).2.2.rep.index} {if (searchLoopEnd R cfg g d tt rep).2.2.stopping then 1 else 0}")
+  rw [he] at ho ⊢
+  have c := (hf.trans hev).2 (by simpa [Env.print] using ho)
+  refine ⟨c.repIndex.symm, c.repSize.symm, ?_, ?_⟩
+  · have : (Env.fresh tt rep).rep.overflow = false := hroom.1
+    simpa [Env.print] using ho.symm ▸ this
+  · intro i hi
+    have hpre := c.repPre
+    unfold RepTable.pre at hpre
+    rw [c.repIndex] at hpre
+    have := congrArg (fun l => l[i]?) hpre
+    simp only [List.getElem?_map, List.getElem?_range (show i < (Env.fresh tt rep).rep.index from hi), Option.map_some] at this
+    exact (Option.some.inj this).symm
+
+/-- **T18.1d** the same `go` twice: whatever the first search left above the index of the history array, the second one
+    (from whatever table `tt2` the first one left) behaves as if it had been handed the original array -/
+theorem second_search_as_from_original_history (R : Rules) (cfg : Cfg) (h0 : cfg.trace = 0) (g : Game) (d d2 : Int) (tt tt2 : TT)
+    (rep : RepTable) (hroom : HistoryRoom rep) :
+    (search R cfg g d2 tt2 (search R cfg g d tt rep).2.rep).1 = (search R cfg g d2 tt2 rep).1 ∧
+    (search R cfg g d2 tt2 (search R cfg g d tt rep).2.rep).2.out = (search R cfg g d2 tt2 rep).2.out := by
+  have h := search_reads_recorded_history_only R cfg h0 g d2 tt2 rep _ (history_after_search_equivalent R cfg g d tt rep hroom)
+  exact ⟨h.1, h.2.1⟩
+
+/-- **T18.2c** `ucinewgame` followed by `position args` and a search, against a fresh process given the same `position`
+    and search: the old table is emptied (structurally the new table), the old history array is reset to length 0 with
+    its stale keys left in place - and by T18.1c that is as good as a new array: both runs parse to the same game (or fail
+    alike), and the searches return the same result and print the same lines. For every old table, every old history
+    array that has not overflowed, every `position` argument string, depth and poll schedule. -/
+theorem newgame_then_position_like_fresh (R : Rules) (cfg : Cfg) (h0 : cfg.trace = 0) (t : TT) (r : RepTable)
+    (ho : r.overflow = false) (hsz : r.table.size = Gen.REP_CAPACITY) (args : String) (depth : Int) :
+    match parsePosition args r.clear, parsePosition args RepTable.new with
+    | .ok (g1, ra), .ok (g2, rb) =>
+        g1 = g2 ∧ (search R cfg g1 depth t.clear ra).1 = (search R cfg g2 depth (TT.new t.size) rb).1 ∧
+        (search R cfg g1 depth t.clear ra).2.out = (search R cfg g2 depth (TT.new t.size) rb).2.out
+    | .none, .none => True
+    | .panic, .panic => True
+    | _, _ => False := by
+  have h := parsePosition_ext args r.clear RepTable.new (clear_like_new r ho hsz)
+  generalize parsePosition args r.clear = A at h
+  generalize parsePosition args RepTable.new = B at h
+  cases A with
+  | ok a =>
+    cases B with
+    | ok b =>
+      obtain ⟨g1, ra⟩ := a; obtain ⟨g2, rb⟩ := b
+      obtain ⟨hg, hr⟩ := h
+      subst hg
+      have := search_reads_recorded_history_only R cfg h0 g1 depth (TT.new t.size) ra rb hr
+      exact ⟨rfl, this.1.symm, this.2.1.symm⟩
+    | none => exact h
+    | panic => exact h
+  | none => cases B <;> exact h
+  | panic => cases B <;> exact h
+
 
 end Jence.Props.C18
